@@ -12,7 +12,7 @@ import gen_toml as G
 
 PROP = "C02"
 COQ_PROPS = "Props/C02.v"
-COQ_PROPS_EXTRA = ["Props/C02tokens.v", "Props/C02doc.v", "Props/C02front.v"]
+COQ_PROPS_EXTRA = ["Props/C02tokens.v", "Props/C02doc.v", "Props/C02front.v", "Props/C02front2.v"]
 THEOREMS = ["see Props/C02.v and Props/C02tokens.v (token-level value lemmas)"]
 RULE = ("valid abstract documents rendered in every spelling + per-spelling value tables; non-trivial = document with "
         ">= 2 values or a value using a non-canonical spelling")
